@@ -120,6 +120,15 @@ def axiom_audit(prop, modules, theorems):
     return res
 
 
+def leanchecker(modules, timeout=1800):
+    """independent re-check of the compiled .olean files of the given modules (thorough tier)"""
+    try:
+        p = subprocess.run(['lake', 'env', 'leanchecker'] + list(modules), cwd=LEAN, capture_output=True, text=True, timeout=timeout)
+    except subprocess.TimeoutExpired:
+        return None, 'timeout'
+    return p.returncode == 0, (p.stdout + p.stderr)[-500:]
+
+
 def drive(requests, timeout=1200):
     """send JSON requests (one per line) to the model driver, return list of replies (parsed)"""
     exe = os.path.join(LEAN, '.lake', 'build', 'bin', 'xyzdrv')
